@@ -19,6 +19,7 @@ META = {
         "R6 the comparator treats both sides alike (same skippable events, each side's events fed to its own validator, refills from its own iterator) and "
         "the events it may skip are exactly the ones the hasher synthesises; R7 the hasher's textual look-ahead stops at every character its decision arms "
         "test and steps over string literals; R8 ReconKey is wired to compare_recon_values / recon_hash. R9 the comparator skips a body delimiter only at an attribute-body boundary (known finding F60)."
+        ' R1 also evaluates the Int/UInt cells of NumericValue::eq on sample pairs where the cell is plain arithmetic (0 is the one integer the tokenizer delivers in both kinds).'
 ),
     "does_not_decide": "the law itself (agreement of the event-stream heuristics - ValueValidator, is_implicit_record - with parse + Value::eq for every pair of strings); "
                        "this is a value-level statement over all inputs that no path-shape rule bounds",
